@@ -7,6 +7,7 @@
 From Coq Require Import List ZArith Bool Lia Arith.
 From RtoscV Require Import Ports.NameModel Ports.WalkModel Ports.WalkProofs Ports.EnumProofs
      Ports.DispatchModel Ports.TreeProofs Ports.DispatchWalk Ports.NamesModel Ports.NamesOk.
+From RtoscV Require Ports.MetaModel Ports.MetaProofs Ports.PathModel.
 From RtoscV Require Import Save.TopoModel Save.TopoEdges Save.SaveModel Save.TreeApp Save.DispatchStage.
 Import ListNotations.
 Local Open Scope Z_scope.
@@ -35,13 +36,19 @@ Qed.
 Lemma spec_flat_pt : forall p ids pre hard soft,
   spec_addrs_port ids pre (sport_of p) = flat_map port_reports (flat_pt ids pre hard soft p).
 Proof.
-  induction p as [nm arr d|nm enum ptr sw sub IHs] using pt_ind2; intros ids pre hard soft.
+  induction p as [nm arr d|nm enum ptr sw sub IHs|nm sw] using pt_ind2; intros ids pre hard soft.
+  3:{ cbn [sport_of spec_addrs_port flat_pt flat_map]. rewrite app_nil_r. unfold port_reports.
+      cbn [f_id f_port]. change [Lit nm] with (leaf_segs nm None). rewrite expand_leaf, map_map.
+      change (p_len (leaf_port (pre ++ nm) None aux_ld)) with 1%nat.
+      apply map_ext. intros k. rewrite elem_addr_leaf. reflexivity. }
   - cbn [sport_of spec_addrs_port flat_pt flat_map]. rewrite app_nil_r. unfold port_reports.
     cbn [f_id f_port]. rewrite expand_leaf, map_map.
     change (p_len (leaf_port (pre ++ nm) arr d)) with (match arr with Some n => n | None => 1%nat end).
     apply map_ext. intros k. rewrite elem_addr_leaf. reflexivity.
   - cbn [sport_of]. rewrite spec_addrs_subtree, flat_pt_sub, flat_map_flat_map.
     apply flat_map_ext. intros x.
+    generalize ((soft ++ olist (option_map (sw_addr pre (sub_name nm enum) x) sw)) ++ self_soft (pre ++ x) sub).
+    intros soft'.
     generalize 0%nat. induction sub as [|q r IHr]; intros i; [reflexivity|].
     inversion IHs as [|? ? Hq Hr]; subst.
     cbn [map spec_table flat_tbl]. rewrite flat_map_app, <- (IHr Hr). f_equal. apply Hq.
@@ -106,30 +113,39 @@ Qed.
 (* ======================================================================== *)
 (* C09 proves the pruning step by step (C09_pruning_enumerated: each expansion of a
    sub-tree name is skipped exactly when the oracle reports a NULL object or a false
-   'enabled by' for that address).  Here the steps are put together for whole trees
-   whose ports carry no metadata block the walk itself reads (the 'enabled by' of a
-   sub-tree port is the oracle's; the forms that make the walker report an enabling
-   port - "name/toggle", rSelf - are outside). *)
-Fixpoint nometa (p : sport) : Prop :=
-  match p with
-  | SPort _ _ m s =>
-      m = None /\
-      match s with
-      | None => True
-      | Some l => (fix all (l : list sport) : Prop := match l with [] => True | x :: r => nometa x /\ all r end) l
-      end
-  end.
+   'enabled by' for that address; for a skipped expansion whose object exists the walker is
+   still applied to the enabling port when that port stands inside: skipped_reports; a table
+   whose "self:" port is disabled is not looked at, the walker is applied to the port it
+   names: self_toggle).  Here the steps are put together for whole trees. *)
+Definition skipped_spec (o : oracle) (ids : list nat) (q : NameModel.port) (b : str) : list report :=
+  if negb (o_null o b) && o_disabled o b then
+    match sub_toggle q b with
+    | Some (j, a) => [(ids ++ [j], a)]
+    | None => []
+    end
+  else [].
 
-Lemma nometa_all : forall l,
-  (fix all (l : list sport) : Prop := match l with [] => True | x :: r => nometa x /\ all r end) l -> Forall nometa l.
-Proof. induction l as [|x r IH]; intros H; [constructor|]. destruct H. constructor; auto. Qed.
+Lemma skipped_reports_spec : forall o ids i q b,
+  skipped_reports (Some o) ids i q b = skipped_spec o (ids ++ [i]) q b.
+Proof.
+  intros. unfold skipped_reports, skipped_spec.
+  destruct (negb (o_null o b) && o_disabled o b); [|reflexivity].
+  destruct (sub_toggle q b) as [[j a]|]; [|reflexivity]. rewrite <- app_assoc. reflexivity.
+Qed.
+
+Definition spec_self (ids : list nat) (t : list NameModel.port) (b : str) : list report :=
+  match self_toggle t b with
+  | Some (j, a) => [(ids ++ [j], a)]
+  | None => []
+  end.
 
 Fixpoint spec_pruned_port (o : oracle) (ids : list nat) (prefix : str) (p : sport) {struct p} : list report :=
   match p with
   | SPort segs _ _ None => map (fun a => (ids, prefix ++ a)) (expand segs)
   | SPort segs _ _ (Some l) =>
       flat_map (fun a =>
-        if pruned (Some o) (prefix ++ a) then [] else
+        if pruned (Some o) (prefix ++ a) then skipped_spec o ids (render_port p) (prefix ++ a) else
+        if o_selfoff o (prefix ++ a) then spec_self ids (map render_port l) (prefix ++ a) else
         (fix go (l : list sport) (i : nat) : list report :=
            match l with
            | [] => []
@@ -143,47 +159,84 @@ Fixpoint spec_pruned_table (o : oracle) (ids : list nat) (pre : str) (l : list s
   | q :: r => spec_pruned_port o (ids ++ [i]) pre q ++ spec_pruned_table o ids pre r (S i)
   end.
 
+(* walk_ports on the table l at address pre *)
+Definition spec_pruned_tableS (o : oracle) (ids : list nat) (pre : str) (l : list sport) : list report :=
+  if o_selfoff o pre then spec_self ids (map render_port l) pre else spec_pruned_table o ids pre l 0%nat.
+
 Lemma spec_pruned_subtree : forall o ids pre sg a m l,
   spec_pruned_port o ids pre (SPort sg a m (Some l)) =
-  flat_map (fun x => if pruned (Some o) (pre ++ x) then [] else spec_pruned_table o ids (pre ++ x) l 0%nat) (expand sg).
+  flat_map (fun x => if pruned (Some o) (pre ++ x)
+                     then skipped_spec o ids (render_port (SPort sg a m (Some l))) (pre ++ x)
+                     else spec_pruned_tableS o ids (pre ++ x) l) (expand sg).
 Proof.
   intros. cbn [spec_pruned_port]. apply flat_map_ext. intros x.
-  destruct (pruned (Some o) (pre ++ x)); [reflexivity|].
+  destruct (pruned (Some o) (pre ++ x)); [reflexivity|]. unfold spec_pruned_tableS.
+  destruct (o_selfoff o (pre ++ x)); [reflexivity|].
   generalize 0%nat. induction l as [|q r IH]; intros i; [reflexivity|].
   cbn [spec_pruned_table]. rewrite <- IH. reflexivity.
 Qed.
 
-Theorem walk_pruned_wf : forall o, (forall b, o_selfoff o b = false) ->
-  forall p ids buf sg a m l,
-  p = SPort sg a m (Some l) -> Forall sport_wf l -> Forall nometa l -> buf <> [] ->
-  walk_port (Some o) ids (render_port p) buf = WOk (spec_pruned_table o ids buf l 0%nat) buf.
+(* wherever the oracle can answer "the self: port is disabled", the table has such a port
+   and it names a port of the table (otherwise walk_ports fails an assertion) *)
+Fixpoint selfs_ok (o : oracle) (prefix : str) (p : sport) {struct p} : Prop :=
+  match p with
+  | SPort _ _ _ None => True
+  | SPort segs _ _ (Some l) =>
+      forall x, In x (expand segs) ->
+        (o_selfoff o (prefix ++ x) = true -> self_toggle (map render_port l) (prefix ++ x) <> None) /\
+        (fix all (l : list sport) : Prop :=
+           match l with [] => True | q :: r => selfs_ok o (prefix ++ x) q /\ all r end) l
+  end.
+Definition tbl_ok (o : oracle) (pre : str) (l : list sport) : Prop :=
+  (o_selfoff o pre = true -> self_toggle (map render_port l) pre <> None) /\ Forall (selfs_ok o pre) l.
+
+Lemma selfs_all_forall : forall o pre l,
+  (fix all (l : list sport) : Prop := match l with [] => True | q :: r => selfs_ok o pre q /\ all r end) l <->
+  Forall (selfs_ok o pre) l.
 Proof.
-  intros o Hself. induction p as [sg0 a0 m0 s0 IHs] using sport_ind2.
-  intros ids buf sg a m l E Hl Hnm Hb. inversion E; subst. clear E.
-  cbn [render_port walk_port]. rewrite (norm_nonempty buf Hb), Hself.
+  intros o pre. induction l as [|x r IH].
+  - split; intros _; [constructor | exact I].
+  - split; intros H.
+    + destruct H as [H1 H2]. constructor; [exact H1 | apply IH; exact H2].
+    + inversion H as [|? ? H1 H2]; subst. split; [exact H1 | apply IH; exact H2].
+Qed.
+
+Theorem walk_pruned_wf : forall o p ids buf sg a m l,
+  p = SPort sg a m (Some l) -> Forall sport_wf l -> buf <> [] -> tbl_ok o buf l ->
+  walk_port (Some o) ids (render_port p) buf = WOk (spec_pruned_tableS o ids buf l) buf.
+Proof.
+  intros o. induction p as [sg0 a0 m0 s0 IHs] using sport_ind2.
+  intros ids buf sg a m l E Hl Hb [Hst Hsok]. inversion E; subst. clear E.
+  cbn [render_port walk_port]. rewrite (norm_nonempty buf Hb). unfold spec_pruned_tableS.
+  destruct (o_selfoff o buf) eqn:Eself.
+  { unfold spec_self. specialize (Hst eq_refl).
+    destruct (self_toggle (map render_port l) buf) as [[j a']|]; [reflexivity | contradiction]. }
+  clear Hst.
   assert (Hloop : forall l' i out0,
-            Forall sport_wf l' -> Forall nometa l' ->
-            Forall (fun q => forall ids buf sg a m l, q = SPort sg a m (Some l) -> Forall sport_wf l -> Forall nometa l -> buf <> [] ->
-                       walk_port (Some o) ids (render_port q) buf = WOk (spec_pruned_table o ids buf l 0%nat) buf) l' ->
+            Forall sport_wf l' -> Forall (selfs_ok o buf) l' ->
+            Forall (fun q => forall ids buf sg a m l, q = SPort sg a m (Some l) -> Forall sport_wf l -> buf <> [] ->
+                       tbl_ok o buf l ->
+                       walk_port (Some o) ids (render_port q) buf = WOk (spec_pruned_tableS o ids buf l) buf) l' ->
             loop_ports (fun q ids' b => walk_port (Some o) ids' q b) (Some o) ids (length buf)
                        (map render_port l') i out0 buf
             = WOk (out0 ++ spec_pruned_table o ids buf l' i) buf).
-  { induction l' as [|q r IHr]; intros i out0 Hpl Hpn HIH.
+  { induction l' as [|q r IHr]; intros i out0 Hpl Hps HIH.
     - cbn [map loop_ports spec_pruned_table]. rewrite app_nil_r. reflexivity.
-    - inversion Hpl as [|? ? Hq Hr]; subst. inversion Hpn as [|? ? Hqn Hrn]; subst.
+    - inversion Hpl as [|? ? Hq Hr]; subst. inversion Hps as [|? ? Hqs Hrs]; subst.
       inversion HIH as [|? ? HIq HIr]; subst.
       cbn [map loop_ports spec_pruned_table].
       destruct q as [sg1 a1 m1 s1]. cbn [sport_wf] in Hq. destruct Hq as [Ha Hq].
-      cbn [nometa] in Hqn. destruct Hqn as [-> Hqn].
       destruct s1 as [l1|].
       + (* a sub-tree: every expansion of its name, pruned or walked *)
         destruct Hq as [[cs [-> [Hcs Hne]]] Hsub].
         cbn [render_port].
         change (render_name (comps_segs cs) a1) with (flatten (comps_segs cs) ++ a1).
-        rewrite (step_port_subtree (fun q ids' b => walk_port (Some o) ids' q b) (Some o) ids i cs a1 None
+        rewrite (step_port_subtree (fun q ids' b => walk_port (Some o) ids' q b) (Some o) ids i cs a1 m1
                    (map render_port l1) buf Hcs Hne Ha).
         set (ws := map (fun x : list Z => buf ++ x) (expand (comps_segs cs))).
-        rewrite (run_all_const _ (fun b => if pruned (Some o) b then [] else spec_pruned_table o (ids ++ [i]) b l1 0%nat) ws).
+        rewrite (run_all_const _ (fun b => if pruned (Some o) b
+                                           then skipped_spec o (ids ++ [i]) (render_port (SPort (comps_segs cs) a1 m1 (Some l1))) b
+                                           else spec_pruned_tableS o (ids ++ [i]) b l1) ws).
         * destruct (last_extends buf (expand (comps_segs cs))) as [x Hx].
           unfold ws. rewrite Hx.
           replace (length (buf ++ x) <? length buf)%nat with false
@@ -191,13 +244,15 @@ Proof.
           rewrite firstn_app_exact. rewrite IHr by assumption.
           rewrite <- app_assoc. f_equal. f_equal. cbn [app].
           rewrite spec_pruned_subtree. rewrite flat_map_map. reflexivity.
-        * intros w Hw. unfold ws in Hw. apply in_map_iff in Hw. destruct Hw as [x [<- _]].
+        * intros w Hw. unfold ws in Hw. apply in_map_iff in Hw. destruct Hw as [x [<- Hx]].
           destruct (pruned (Some o) (buf ++ x)) eqn:Ep.
-          -- f_equal. unfold skipped_reports. destruct (negb (o_null o (buf ++ x)) && o_disabled o (buf ++ x)); reflexivity.
-          -- change (Port (flatten (comps_segs cs) ++ a1) None (Some (map render_port l1)))
-               with (render_port (SPort (comps_segs cs) a1 None (Some l1))).
-             apply (HIq (ids ++ [i]) (buf ++ x) (comps_segs cs) a1 None l1 eq_refl (wf_all_forall _ Hsub) (nometa_all _ Hqn)).
-             intros E0. apply app_eq_nil in E0. destruct E0. contradiction.
+          -- f_equal. apply skipped_reports_spec.
+          -- change (Port (flatten (comps_segs cs) ++ a1) m1 (Some (map render_port l1)))
+               with (render_port (SPort (comps_segs cs) a1 m1 (Some l1))).
+             cbn [selfs_ok] in Hqs. destruct (Hqs x Hx) as [Hsx Hallx].
+             apply (HIq (ids ++ [i]) (buf ++ x) (comps_segs cs) a1 m1 l1 eq_refl (wf_all_forall _ Hsub)).
+             ++ intros E0. apply app_eq_nil in E0. destruct E0. contradiction.
+             ++ split; [exact Hsx | apply selfs_all_forall; exact Hallx].
       + (* a leaf: as without a runtime object *)
         cbn [render_port]. unfold step_port.
         assert (Hh : has_char 35 (render_name sg1 a1) = has_enum sg1).
@@ -217,7 +272,7 @@ Proof.
           rewrite firstn_app_exact. rewrite IHr by assumption.
           rewrite <- app_assoc. f_equal.
           cbn [spec_pruned_port]. rewrite (expand_enumfree sg1 Ee). reflexivity. }
-  specialize (Hloop l 0%nat [] Hl Hnm). cbn [app] in Hloop. apply Hloop.
+  specialize (Hloop l 0%nat [] Hl Hsok). cbn [app] in Hloop. apply Hloop.
   eapply Forall_impl; [|exact IHs]. intros q Hq. exact Hq.
 Qed.
 
@@ -226,7 +281,8 @@ Qed.
 (* ======================================================================== *)
 Lemma dirs_pt_sub : forall dir nm enum ptr sw sub,
   dirs_pt dir (PSub nm enum ptr sw sub) =
-  flat_map (fun x => (dir ++ x, option_map (fun g => dir ++ g) ptr, option_map (fun g => dir ++ g) sw)
+  flat_map (fun x => (dir ++ x, option_map (fun g => dir ++ g) ptr, option_map (sw_addr dir (sub_name nm enum) x) sw,
+                      option_map (fun v => (dir ++ x) ++ v) (self_sw sub))
                      :: dirs_tbl (dir ++ x) sub) (expand (sub_segs nm enum)).
 Proof.
   intros. cbn [dirs_pt]. apply flat_map_ext. intros x. f_equal.
@@ -244,16 +300,169 @@ Proof.
     apply IH; assumption.
 Qed.
 
-(* the switches above a port are among its own *)
+(* the toggles that govern a port: the switches of the pointers above it, and the
+   'enabled by' toggles above it other than the port itself *)
 Lemma flat_pt_incl : forall p ids dir hard soft f,
-  In f (flat_pt ids dir hard soft p) -> incl hard (f_hard f) /\ incl soft (f_soft f).
+  In f (flat_pt ids dir hard soft p) ->
+  incl hard (f_hard f) /\ (forall g, In g soft -> g <> p_path (f_port f) -> In g (f_soft f)).
 Proof.
-  induction p as [nm arr d|nm enum ptr sw sub IHs] using pt_ind2; intros ids dir hard soft f Hin.
-  - cbn [flat_pt] in Hin. destruct Hin as [<-|[]]. cbn. split; apply incl_refl.
+  induction p as [nm arr d|nm enum ptr sw sub IHs|nm sw] using pt_ind2; intros ids dir hard soft f Hin.
+  - cbn [flat_pt] in Hin. destruct Hin as [<-|[]]. cbn [f_hard f_soft f_port leaf_port p_path].
+    split; [apply incl_refl|]. intros g Hg Hne. unfold soft_of. apply filter_In. split; [exact Hg|].
+    destruct (str_eqb g (dir ++ nm)) eqn:E; [|reflexivity]. apply streqb_true in E. contradiction.
   - rewrite flat_pt_sub in Hin. apply in_flat_map in Hin. destruct Hin as (x & _ & Hin).
     destruct (in_flat_tbl _ _ _ _ _ _ _ Hin) as (j & q & Eq & Hq).
     rewrite Forall_forall in IHs. destruct (IHs q (nth_error_In _ _ Eq) _ _ _ _ _ Hq) as [H1 H2].
-    split; intros g Hg; [apply H1 | apply H2]; apply in_or_app; left; exact Hg.
+    split; [intros g Hg; apply H1; apply in_or_app; left; exact Hg|].
+    intros g Hg Hne. apply H2; [apply in_or_app; left; apply in_or_app; left; exact Hg | exact Hne].
+  - cbn [flat_pt] in Hin. destruct Hin as [<-|[]]. cbn [f_hard f_soft f_port leaf_port p_path].
+    split; [apply incl_refl|]. intros g Hg Hne. unfold soft_of. apply filter_In. split; [exact Hg|].
+    destruct (str_eqb g (dir ++ nm)) eqn:E; [|reflexivity]. apply streqb_true in E. contradiction.
+Qed.
+
+Lemma flat_tbl_incl : forall l ids dir hard soft i f,
+  In f (flat_tbl ids dir hard soft l i) ->
+  incl hard (f_hard f) /\ (forall g, In g soft -> g <> p_path (f_port f) -> In g (f_soft f)).
+Proof.
+  intros l ids dir hard soft i f Hf. destruct (in_flat_tbl _ _ _ _ _ _ _ Hf) as (j & q & _ & Hq).
+  exact (flat_pt_incl _ _ _ _ _ _ Hq).
+Qed.
+
+(* the addresses below a table begin with the table's own *)
+Lemma flat_pt_prefix : forall p ids dir hard soft f,
+  In f (flat_pt ids dir hard soft p) -> exists r, p_path (f_port f) = dir ++ r.
+Proof.
+  induction p as [nm arr d|nm enum ptr sw sub IHs|nm sw] using pt_ind2; intros ids dir hard soft f Hin.
+  - cbn [flat_pt] in Hin. destruct Hin as [<-|[]]. exists nm. reflexivity.
+  - rewrite flat_pt_sub in Hin. apply in_flat_map in Hin. destruct Hin as (x & _ & Hin).
+    destruct (in_flat_tbl _ _ _ _ _ _ _ Hin) as (j & q & Eq & Hq).
+    rewrite Forall_forall in IHs. destruct (IHs q (nth_error_In _ _ Eq) _ _ _ _ _ Hq) as [r Hr].
+    exists (x ++ r). rewrite Hr, app_assoc. reflexivity.
+  - cbn [flat_pt] in Hin. destruct Hin as [<-|[]]. exists nm. reflexivity.
+Qed.
+
+Lemma flat_tbl_prefix : forall l ids dir hard soft i f,
+  In f (flat_tbl ids dir hard soft l i) -> exists r, p_path (f_port f) = dir ++ r.
+Proof.
+  intros l ids dir hard soft i f Hf. destruct (in_flat_tbl _ _ _ _ _ _ _ Hf) as (j & q & _ & Hq).
+  exact (flat_pt_prefix _ _ _ _ _ _ Hq).
+Qed.
+
+(* every expansion of a sub-tree name holds a '/' *)
+Lemma expand_sub_slash : forall nm enum x, In x (expand (sub_segs nm enum)) -> has_char 47 x = true.
+Proof.
+  intros nm [n|] x Hx; cbn [sub_segs expand] in Hx.
+  - apply in_map_iff in Hx. destruct Hx as (y & <- & Hy). apply in_flat_map in Hy. destruct Hy as (i & _ & Hy).
+    apply in_map_iff in Hy. destruct Hy as (z & <- & Hz). cbn in Hz. destruct Hz as [<-|[]].
+    rewrite !has_char_app. cbn. rewrite !orb_true_r. reflexivity.
+  - cbn in Hx. destruct Hx as [<-|[]]. rewrite !has_char_app. cbn. rewrite !orb_true_r. reflexivity.
+Qed.
+
+Lemma leaf_in_flat_tbl : forall l ids dir hard soft i j e arr d,
+  nth_error l j = Some (PLeaf e arr d) -> In (dir ++ e) (fpaths (flat_tbl ids dir hard soft l i)).
+Proof.
+  induction l as [|q r IH]; intros ids dir hard soft i j e arr d E; [destruct j; discriminate|].
+  cbn [flat_tbl]. unfold fpaths. rewrite map_app. apply in_or_app. destruct j as [|j]; cbn in E.
+  - inversion E; subst q. left. cbn. left. reflexivity.
+  - right. exact (IH ids dir hard soft (S i) j e arr d E).
+Qed.
+
+Lemma nodup_app_disj : forall A (l1 l2 : list A), NoDup (l1 ++ l2) ->
+  NoDup l1 /\ NoDup l2 /\ forall z, In z l1 -> ~ In z l2.
+Proof.
+  induction l1 as [|z zs IHz]; intros l2 Hnd; cbn [app] in Hnd.
+  - split; [constructor|]. split; [exact Hnd|]. intros z [].
+  - inversion Hnd as [|? ? Hnot Hnd']; subst. destruct (IHz _ Hnd') as (H1 & H2 & H3).
+    split; [constructor; [intro Hc; apply Hnot; apply in_or_app; left; exact Hc | exact H1]|].
+    split; [exact H2|]. intros w [<-|Hw]; [intro Hc; apply Hnot; apply in_or_app; right; exact Hc | apply H3; exact Hw].
+Qed.
+
+Lemma nodup_flat_map_piece : forall A B (g : A -> list B) l x,
+  NoDup (flat_map g l) -> In x l -> NoDup (g x).
+Proof.
+  induction l as [|h l IH]; intros x Hnd Hx; [contradiction|]. cbn [flat_map] in Hnd.
+  destruct (nodup_app_disj _ _ _ Hnd) as (H1 & H2 & _). destruct Hx as [->|Hx]; [exact H1 | exact (IH x H2 Hx)].
+Qed.
+
+Lemma fpaths_app : forall l1 l2, fpaths (l1 ++ l2) = fpaths l1 ++ fpaths l2.
+Proof. intros. unfold fpaths. apply map_app. Qed.
+
+Lemma fpaths_flat_map : forall A (g : A -> list fport) l, fpaths (flat_map g l) = flat_map (fun x => fpaths (g x)) l.
+Proof.
+  induction l as [|x l IH]; [reflexivity|]. cbn [flat_map]. rewrite fpaths_app, IH. reflexivity.
+Qed.
+
+Lemma soft_of_on : forall (f : str -> bool) path soft, forallb f soft = true -> forallb f (soft_of path soft) = true.
+Proof.
+  intros f path soft H. rewrite forallb_forall in *. intros g Hg. apply H. unfold soft_of in Hg.
+  apply filter_In in Hg. apply Hg.
+Qed.
+
+Lemma nonul_b_nonul : forall g, nonul_b g = true -> MetaModel.nonul g.
+Proof.
+  intros g H. unfold nonul_b in H. rewrite forallb_forall in H. apply Forall_forall. intros c Hc E.
+  specialize (H c Hc). subst c. discriminate.
+Qed.
+
+(* port_is_enabled on the metadata rEnabledBy wrote: the lookup gives the property (C17) *)
+Lemma enabled_by_lookup : forall g, MetaModel.nonul g ->
+  exists p, MetaModel.meta (MetaModel.render [(WalkModel.enabled_by, Some g)]) = Some p /\
+            MetaModel.lookup p WalkModel.enabled_by = Some (Some g).
+Proof.
+  intros g Hg.
+  destruct (MetaProofs.lookup_render WalkModel.enabled_by (Some g) [] WalkModel.enabled_by) as (p & Hm & Hl & _).
+  { constructor; [|constructor]. split; [|exact Hg]. cbn [fst].
+    split; [discriminate|]. split; [repeat constructor; discriminate | discriminate]. }
+  exists p. split; [exact Hm|]. rewrite Hl. reflexivity.
+Qed.
+
+(* ... the comparison with the port's name tells the two forms apart *)
+Lemma sub_toggle_meta : forall qn g subp b, MetaModel.nonul g ->
+  sub_toggle (Port qn (Some (MetaModel.render [(WalkModel.enabled_by, Some g)])) (Some subp)) b =
+  match subport_split qn g with
+  | Some e => match PathModel.index_op subp e with Some j => Some (j, b ++ e) | None => None end
+  | None => None
+  end.
+Proof.
+  intros qn g subp b Hg. unfold sub_toggle.
+  destruct (enabled_by_lookup g Hg) as (p & Hm & Hl).
+  match goal with |- context [MetaModel.meta ?X] => replace (MetaModel.meta X) with (Some p) by (symmetry; exact Hm) end.
+  rewrite Hl. reflexivity.
+Qed.
+
+Lemma inner_ok_leaf : forall l e, inner_ok l e = true ->
+  exists j d, PathModel.index_op (map render_port (map sport_of l)) e = Some j /\ nth_error l j = Some (PLeaf e None d).
+Proof.
+  intros l e H. unfold inner_ok, sports_of in H.
+  destruct (PathModel.index_op (map render_port (map sport_of l)) e) as [j|]; [|discriminate H].
+  destruct (nth_error l j) as [[nm' [n|] d'|nm' enum' ptr' sw' sub'|nm' sw']|] eqn:Ej; try discriminate H.
+  apply andb_true_iff in H. destruct H as [Hname _]. apply streqb_true in Hname. subst nm'.
+  exists j, d'. split; [reflexivity | exact Ej].
+Qed.
+
+(* rSelf(.., rEnabledBy(x)): the port walk_ports is applied to while x is off *)
+Lemma self_toggle_ok : forall l x b, self_sw l = Some x -> self_ok l = true ->
+  exists j d, nth_error l j = Some (PLeaf x None d) /\
+              self_toggle (map render_port (map sport_of l)) b = Some (j, b ++ x).
+Proof.
+  intros l x b Hsw Hok. unfold self_ok in Hok. rewrite Hsw in Hok.
+  apply andb_true_iff in Hok. destruct Hok as [Hok Hidx]. apply andb_true_iff in Hok. destruct Hok as [Hnul Hin].
+  destruct (inner_ok_leaf l x Hin) as (j & d & Ej & Enj). exists j, d. split; [exact Enj|].
+  unfold sports_of in Hidx. unfold self_toggle.
+  destruct (PathModel.index_op (map render_port (map sport_of l)) self_key) as [i|]; [|discriminate Hidx].
+  rewrite !nth_error_map.
+  destruct (nth_error l i) as [[nm' arr' d'|nm' enum' ptr' sw' sub'|nm' [x'|]]|]; try discriminate Hidx.
+  apply andb_true_iff in Hidx. destruct Hidx as [_ Hx]. apply streqb_true in Hx. subst x'.
+  cbn [option_map sport_of render_port sub_meta].
+  destruct (enabled_by_lookup x (nonul_b_nonul x Hnul)) as (p & Hm & Hl).
+  match goal with |- context [MetaModel.meta ?X] => replace (MetaModel.meta X) with (Some p) by (symmetry; exact Hm) end.
+  rewrite Hl, Ej. reflexivity.
+Qed.
+
+Lemma dirs_tbl_in : forall l dir p, In p l -> incl (dirs_pt dir p) (dirs_tbl dir l).
+Proof.
+  induction l as [|q r IH]; intros dir p Hp e He; [contradiction|]. cbn [dirs_tbl]. apply in_or_app.
+  destruct Hp as [->|Hp]; [left; exact He | right; exact (IH dir p Hp e He)].
 Qed.
 
 Definition live_f (a : app) (s : state) (f : fport) : bool :=
@@ -281,63 +490,177 @@ Section Pruned.
   Hypothesis Hnd : NoDup (map dir_addr ds).
   Let o := oracle_of a ds s.
 
-  Lemma pruned_dir : forall b ptr sw, In (b, ptr, sw) ds ->
-    pruned (Some o) b = negb (forallb (sw_on a s) (olist ptr)) || negb (forallb (sw_on a s) (olist sw)).
+  Lemma oracle_dir : forall b ptr sw self, In (b, ptr, sw, self) ds ->
+    o_null o b = negb (forallb (sw_on a s) (olist ptr)) /\
+    o_disabled o b = negb (forallb (sw_on a s) (olist sw)) /\
+    o_selfoff o b = negb (forallb (sw_on a s) (olist self)).
   Proof.
-    intros b ptr sw Hin. unfold pruned, o, oracle_of. cbn [o_null o_disabled].
-    pose proof (dir_find_nodup ds (b, ptr, sw) Hnd Hin) as Hf. cbn [dir_addr fst] in Hf. rewrite Hf.
-    destruct ptr as [g|]; destruct sw as [g'|]; cbn [olist forallb]; rewrite ?andb_true_r; reflexivity.
+    intros b ptr sw self Hin. unfold o, oracle_of. cbn [o_null o_disabled o_selfoff].
+    pose proof (dir_find_nodup ds (b, ptr, sw, self) Hnd Hin) as Hf. cbn [dir_addr fst] in Hf. rewrite Hf.
+    destruct ptr as [g|]; destruct sw as [g'|]; destruct self as [g''|]; cbn [olist forallb];
+      rewrite ?andb_true_r; repeat split; reflexivity.
+  Qed.
+
+  (* below a toggle that is off nothing is live but (possibly) the toggle itself *)
+  Lemma dead_list : forall fl soft tg,
+    (forall f, In f fl -> forall g, In g soft -> g <> p_path (f_port f) -> In g (f_soft f)) ->
+    In tg soft -> sw_on a s tg = false -> ~ In tg (fpaths fl) ->
+    flat_map (live_reports a s) fl = [].
+  Proof.
+    intros fl soft tg Hsoft Htg Hoff Hnot. apply flat_map_nil. intros f Hf.
+    unfold live_reports, live_f.
+    assert (Hin : In tg (f_soft f)).
+    { apply (Hsoft f Hf tg Htg). intros E. apply Hnot. rewrite E. unfold fpaths.
+      apply (in_map (fun f => p_path (f_port f))). exact Hf. }
+    assert (E : forallb (sw_on a s) (f_soft f) = false).
+    { destruct (forallb (sw_on a s) (f_soft f)) eqn:E; [|reflexivity].
+      rewrite forallb_forall in E. rewrite (E tg Hin) in Hoff. discriminate. }
+    rewrite E, andb_false_r. reflexivity.
+  Qed.
+
+  (* the inner switch of a sub-tree / the switch of the table's rSelf is off: of the table
+     only the switch is live *)
+  Lemma only_switch_live : forall l ids dir hard soft i j e d,
+    nth_error l j = Some (PLeaf e None d) ->
+    In (dir ++ e) soft -> sw_on a s (dir ++ e) = false ->
+    forallb (sw_on a s) hard = true -> forallb (sw_on a s) (soft_of (dir ++ e) soft) = true ->
+    NoDup (fpaths (flat_tbl ids dir hard soft l i)) ->
+    flat_map (live_reports a s) (flat_tbl ids dir hard soft l i) = [(ids ++ [(i + j)%nat], dir ++ e)].
+  Proof.
+    induction l as [|q r IH]; intros ids dir hard soft i j e d Ej Hin Hoff Hh Hs Hn; [destruct j; discriminate|].
+    cbn [flat_tbl] in Hn |- *. rewrite flat_map_app. rewrite fpaths_app in Hn.
+    destruct (nodup_app_disj _ _ _ Hn) as (_ & Hn2 & Hdis).
+    destruct j as [|j]; cbn [nth_error] in Ej.
+    - inversion Ej; subst q. clear Ej.
+      rewrite (dead_list (flat_tbl ids dir hard soft r (S i)) soft (dir ++ e)); try assumption.
+      + cbn [flat_pt flat_map]. unfold live_reports, live_f. cbn [f_hard f_soft].
+        rewrite Hh, Hs. cbn [andb]. rewrite Nat.add_0_r. reflexivity.
+      + intros f Hf. exact (proj2 (flat_tbl_incl _ _ _ _ _ _ _ Hf)).
+      + apply Hdis. cbn. left. reflexivity.
+    - rewrite (dead_list (flat_pt (ids ++ [i]) dir hard soft q) soft (dir ++ e)); try assumption.
+      + rewrite (IH ids dir hard soft (S i) j e d Ej Hin Hoff Hh Hs Hn2).
+        replace (S i + j)%nat with (i + S j)%nat by lia. reflexivity.
+      + intros f Hf. exact (proj2 (flat_pt_incl _ _ _ _ _ _ Hf)).
+      + intros Hc. apply (Hdis _ Hc). exact (leaf_in_flat_tbl r ids dir hard soft (S i) j e None d Ej).
+  Qed.
+
+  (* walk_ports on one table, given what it does with the ports of the table while the
+     table's rSelf (if any) is enabled *)
+  Lemma table_self : forall l ids dir hard soft ptr sw,
+    In (dir, ptr, sw, option_map (fun v => dir ++ v) (self_sw l)) ds ->
+    self_ok l = true ->
+    NoDup (fpaths (flat_tbl ids dir hard (soft ++ self_soft dir l) l 0%nat)) ->
+    forallb (sw_on a s) hard = true -> forallb (sw_on a s) soft = true ->
+    (forallb (sw_on a s) (soft ++ self_soft dir l) = true ->
+     spec_pruned_table o ids dir (map sport_of l) 0%nat =
+     flat_map (live_reports a s) (flat_tbl ids dir hard (soft ++ self_soft dir l) l 0%nat)) ->
+    spec_pruned_tableS o ids dir (map sport_of l) =
+    flat_map (live_reports a s) (flat_tbl ids dir hard (soft ++ self_soft dir l) l 0%nat).
+  Proof.
+    intros l ids dir hard soft ptr sw Hin Hok Hn Hh Hs Hon.
+    destruct (oracle_dir _ _ _ _ Hin) as (_ & _ & Eself). unfold spec_pruned_tableS. rewrite Eself.
+    change (olist (option_map (fun v : list Z => dir ++ v) (self_sw l))) with (self_soft dir l).
+    destruct (forallb (sw_on a s) (self_soft dir l)) eqn:Es; cbn [negb].
+    - apply Hon. rewrite forallb_app, Hs. exact Es.
+    - unfold self_soft in *. destruct (self_sw l) as [x|] eqn:Esw; [|discriminate Es].
+      cbn [option_map olist forallb] in Es, Hn |- *. rewrite andb_true_r in Es.
+      destruct (self_toggle_ok l x dir Esw Hok) as (j & d & Ej & Et).
+      unfold spec_self. rewrite Et.
+      rewrite (only_switch_live l ids dir hard (soft ++ [dir ++ x]) 0 j x d Ej); try assumption.
+      + reflexivity.
+      + apply in_or_app. right. left. reflexivity.
+      + unfold soft_of. rewrite filter_app, forallb_app. fold (soft_of (dir ++ x) soft).
+        rewrite (soft_of_on _ _ _ Hs). cbn [filter]. rewrite (proj2 (streqb_true _ _) eq_refl). reflexivity.
+  Qed.
+
+  Lemma pruned_tbl_IH : forall l,
+    Forall (fun p => forall ids dir hard soft,
+              incl (dirs_pt dir p) ds -> sw_ok p = true ->
+              NoDup (fpaths (flat_pt ids dir hard soft p)) ->
+              forallb (sw_on a s) hard = true -> forallb (sw_on a s) soft = true ->
+              spec_pruned_port o ids dir (sport_of p) = flat_map (live_reports a s) (flat_pt ids dir hard soft p)) l ->
+    forall ids dir hard soft i,
+    incl (dirs_tbl dir l) ds -> forallb sw_ok l = true ->
+    NoDup (fpaths (flat_tbl ids dir hard soft l i)) ->
+    forallb (sw_on a s) hard = true -> forallb (sw_on a s) soft = true ->
+    spec_pruned_table o ids dir (map sport_of l) i = flat_map (live_reports a s) (flat_tbl ids dir hard soft l i).
+  Proof.
+    induction l as [|q r IH]; intros HF ids dir hard soft i Hds Hok Hn Hh Hs; [reflexivity|].
+    inversion HF as [|? ? Hq Hr]; subst.
+    cbn [forallb] in Hok. apply andb_true_iff in Hok. destruct Hok as [Hokq Hokr].
+    cbn [flat_tbl] in Hn. rewrite fpaths_app in Hn. destruct (nodup_app_disj _ _ _ Hn) as (Hn1 & Hn2 & _).
+    cbn [map spec_pruned_table flat_tbl]. rewrite flat_map_app.
+    rewrite <- (IH Hr); try assumption; [|intros e He; apply Hds; cbn [dirs_tbl]; apply in_or_app; right; exact He].
+    f_equal. apply Hq; try assumption.
+    intros e He. apply Hds. cbn [dirs_tbl]. apply in_or_app. left. exact He.
   Qed.
 
   Lemma pruned_flat_pt : forall p ids dir hard soft,
-    incl (dirs_pt dir p) ds ->
+    incl (dirs_pt dir p) ds -> sw_ok p = true ->
+    NoDup (fpaths (flat_pt ids dir hard soft p)) ->
     forallb (sw_on a s) hard = true -> forallb (sw_on a s) soft = true ->
     spec_pruned_port o ids dir (sport_of p) = flat_map (live_reports a s) (flat_pt ids dir hard soft p).
   Proof.
-    induction p as [nm arr d|nm enum ptr sw sub IHs] using pt_ind2; intros ids dir hard soft Hds Hh Hs.
+    induction p as [nm arr d|nm enum ptr sw sub IHs|nm sw] using pt_ind2; intros ids dir hard soft Hds Hok Hn Hh Hs.
     - cbn [flat_pt flat_map]. rewrite app_nil_r. unfold live_reports, live_f. cbn [f_hard f_soft].
-      rewrite Hh, Hs. cbn [andb]. rewrite <- (app_nil_r (port_reports _)).
+      rewrite Hh, (soft_of_on _ _ _ Hs). cbn [andb]. rewrite <- (app_nil_r (port_reports _)).
       change (port_reports {| f_id := ids; f_port := leaf_port (dir ++ nm) arr d;
-                              f_sel := option_map (fun x => dir ++ x) (ld_sel d); f_hard := hard; f_soft := soft |} ++ [])
+                              f_sel := option_map (fun x => dir ++ x) (ld_sel d); f_hard := hard;
+                              f_soft := soft_of (dir ++ nm) soft |} ++ [])
         with (flat_map port_reports (flat_pt ids dir hard soft (PLeaf nm arr d))).
       rewrite <- spec_flat_pt. reflexivity.
     - cbn [sport_of]. rewrite spec_pruned_subtree, flat_pt_sub, flat_map_flat_map.
-      rewrite dirs_pt_sub in Hds.
+      rewrite dirs_pt_sub in Hds. rewrite flat_pt_sub, fpaths_flat_map in Hn.
+      cbn [sw_ok] in Hok. apply andb_true_iff in Hok. destruct Hok as [Hsw Hoksub].
+      apply andb_true_iff in Hsw. destruct Hsw as [Hsw Hself].
       apply flat_map_ext_in'. intros x Hx.
-      assert (Hin : In (dir ++ x, option_map (fun g => dir ++ g) ptr, option_map (fun g => dir ++ g) sw) ds).
+      pose proof (nodup_flat_map_piece _ _ _ _ x Hn Hx) as Hnx.
+      assert (Hin : In (dir ++ x, option_map (fun g => dir ++ g) ptr, option_map (sw_addr dir (sub_name nm enum) x) sw,
+                        option_map (fun v => (dir ++ x) ++ v) (self_sw sub)) ds).
       { apply Hds. apply in_flat_map. exists x. split; [exact Hx | left; reflexivity]. }
       assert (Hsubds : incl (dirs_tbl (dir ++ x) sub) ds).
       { intros e He. apply Hds. apply in_flat_map. exists x. split; [exact Hx | right; exact He]. }
-      rewrite (pruned_dir _ _ _ Hin).
-      set (hard' := hard ++ olist (option_map (fun g => dir ++ g) ptr)).
-      set (soft' := soft ++ olist (option_map (fun g => dir ++ g) sw)).
-      match goal with |- context [negb ?X || negb ?Y] => destruct X eqn:Ep; [destruct Y eqn:Es|] end; cbn [negb orb].
-      + (* visited *)
+      destruct (oracle_dir _ _ _ _ Hin) as (En & Ed & _). unfold pruned, skipped_spec. rewrite En, Ed.
+      set (hard' := hard ++ olist (option_map (fun g => dir ++ g) ptr)) in *.
+      set (soft' := soft ++ olist (option_map (sw_addr dir (sub_name nm enum) x) sw)) in *.
+      match goal with |- context [negb ?X || negb ?Y] => destruct X eqn:Ep; [destruct Y eqn:Es|] end; cbn [negb orb andb].
+      + (* visited: walk_ports on the sub-table *)
         assert (Hh' : forallb (sw_on a s) hard' = true) by (unfold hard'; rewrite forallb_app, Hh; exact Ep).
         assert (Hs' : forallb (sw_on a s) soft' = true) by (unfold soft'; rewrite forallb_app, Hs; exact Es).
-        clear Hin Hds. revert Hsubds. generalize 0%nat.
-        induction sub as [|q r IHr]; intros i Hsubds; [reflexivity|].
-        inversion IHs as [|? ? Hq Hr]; subst.
-        cbn [map spec_pruned_table flat_tbl]. rewrite flat_map_app.
-        rewrite <- (IHr Hr); [|intros e He; apply Hsubds; cbn [dirs_tbl]; apply in_or_app; right; exact He].
-        f_equal. apply Hq; try assumption.
-        intros e He. apply Hsubds. cbn [dirs_tbl]. apply in_or_app. left. exact He.
-      + (* 'enabled by' off: nothing below is live *)
-        symmetry. apply flat_map_nil. intros f Hf.
-        destruct (in_flat_tbl _ _ _ _ _ _ _ Hf) as (j & q & _ & Hq).
-        destruct (flat_pt_incl _ _ _ _ _ _ Hq) as [_ Hi].
-        unfold live_reports, live_f.
-        assert (E : forallb (sw_on a s) (f_soft f) = false).
-        { destruct (forallb (sw_on a s) (f_soft f)) eqn:E; [|reflexivity].
-          rewrite forallb_forall in E. exfalso.
-          assert (Es' : forallb (sw_on a s) (olist (option_map (fun g => dir ++ g) sw)) = true).
-          { apply forallb_forall. intros g Hg. apply E. apply Hi. apply in_or_app. right. exact Hg. }
-          assert (Hc : true = false) by exact (eq_trans (eq_sym Es') Es). discriminate. }
-        rewrite E, andb_false_r. reflexivity.
+        apply (table_self sub ids (dir ++ x) hard' soft' _ _ Hin Hself Hnx Hh' Hs').
+        intros Hs''. apply (pruned_tbl_IH sub IHs); assumption.
+      + (* 'enabled by' off: the walker is applied to the switch if it stands inside *)
+        destruct sw as [g|]; [|discriminate Es].
+        cbn [option_map olist forallb] in Es. rewrite andb_true_r in Es.
+        apply andb_true_iff in Hsw. destruct Hsw as [Hnul Hform].
+        cbn [render_port sub_meta]. rewrite (sub_toggle_meta _ g _ _ (nonul_b_nonul g Hnul)).
+        assert (Htg : In (sw_addr dir (sub_name nm enum) x g) (soft' ++ self_soft (dir ++ x) sub))
+          by (unfold soft'; apply in_or_app; left; apply in_or_app; right; left; reflexivity).
+        unfold sub_name in *. unfold sw_addr in *.
+        destruct (subport_split (render_name (sub_segs nm enum) []) g) as [e|] eqn:Esp.
+        * (* "name/tg" *)
+          apply andb_true_iff in Hform. destruct Hform as [Hform Hboth].
+          destruct (inner_ok_leaf sub e Hform) as (j & d' & Ei & Ej). rewrite Ei.
+          rewrite (app_assoc dir x e) in Es, Htg.
+          rewrite (only_switch_live sub ids (dir ++ x) hard' (soft' ++ self_soft (dir ++ x) sub) 0 j e d' Ej Htg Es); try assumption.
+          -- reflexivity.
+          -- unfold hard'. rewrite forallb_app, Hh. exact Ep.
+          -- (* the toggles asked so far are on; the table's own rSelf names the same switch *)
+             unfold soft', soft_of, self_soft. cbn [option_map olist]. rewrite !filter_app, !forallb_app.
+             fold (soft_of ((dir ++ x) ++ e) soft). rewrite (soft_of_on _ _ _ Hs). cbn [filter].
+             rewrite Esp, (app_assoc dir x e), (proj2 (streqb_true _ _) eq_refl). cbn [negb forallb andb].
+             destruct (self_sw sub) as [x2|]; cbn [option_map olist filter]; [|reflexivity].
+             apply streqb_true in Hboth. subst x2. rewrite (proj2 (streqb_true _ _) eq_refl). reflexivity.
+        * (* a toggle of the parent table: nothing below is live *)
+          symmetry. apply (dead_list _ (soft' ++ self_soft (dir ++ x) sub) (dir ++ g)); try assumption.
+          -- intros f Hf. exact (proj2 (flat_tbl_incl _ _ _ _ _ _ _ Hf)).
+          -- intros Hc. unfold fpaths in Hc. apply in_map_iff in Hc. destruct Hc as (f & Ef & Hf).
+             destruct (flat_tbl_prefix _ _ _ _ _ _ _ Hf) as [r Hr]. rewrite Hr, <- app_assoc in Ef.
+             apply app_inv_head in Ef. apply negb_true_iff in Hform.
+             rewrite <- Ef, has_char_app, (expand_sub_slash _ _ _ Hx) in Hform. discriminate.
       + (* the pointer is NULL *)
         symmetry. apply flat_map_nil. intros f Hf.
-        destruct (in_flat_tbl _ _ _ _ _ _ _ Hf) as (j & q & _ & Hq).
-        destruct (flat_pt_incl _ _ _ _ _ _ Hq) as [Hi _].
+        destruct (flat_tbl_incl _ _ _ _ _ _ _ Hf) as [Hi _].
         unfold live_reports, live_f.
         assert (E : forallb (sw_on a s) (f_hard f) = false).
         { destruct (forallb (sw_on a s) (f_hard f)) eqn:E; [|reflexivity].
@@ -346,44 +669,84 @@ Section Pruned.
           { apply forallb_forall. intros g Hg. apply E. apply Hi. apply in_or_app. right. exact Hg. }
           assert (Hc : true = false) by exact (eq_trans (eq_sym Ep') Ep). discriminate. }
         rewrite E. reflexivity.
+    - cbn [flat_pt flat_map]. rewrite app_nil_r. unfold live_reports, live_f. cbn [f_hard f_soft].
+      rewrite Hh, (soft_of_on _ _ _ Hs). cbn [andb]. rewrite <- (app_nil_r (port_reports _)).
+      change (port_reports {| f_id := ids; f_port := leaf_port (dir ++ nm) None aux_ld;
+                              f_sel := None; f_hard := hard;
+                              f_soft := soft_of (dir ++ nm) soft |} ++ [])
+        with (flat_map port_reports (flat_pt ids dir hard soft (PAux nm sw))).
+      rewrite <- spec_flat_pt. reflexivity.
   Qed.
 
   Lemma pruned_flat_tbl : forall l ids dir hard soft i,
-    incl (dirs_tbl dir l) ds ->
+    incl (dirs_tbl dir l) ds -> forallb sw_ok l = true ->
+    NoDup (fpaths (flat_tbl ids dir hard soft l i)) ->
     forallb (sw_on a s) hard = true -> forallb (sw_on a s) soft = true ->
     spec_pruned_table o ids dir (map sport_of l) i = flat_map (live_reports a s) (flat_tbl ids dir hard soft l i).
   Proof.
-    induction l as [|q r IH]; intros ids dir hard soft i Hds Hh Hs; [reflexivity|].
-    cbn [map spec_pruned_table flat_tbl]. rewrite flat_map_app.
-    rewrite <- IH; try assumption; [|intros e He; apply Hds; cbn [dirs_tbl]; apply in_or_app; right; exact He].
-    f_equal. apply pruned_flat_pt; try assumption.
-    intros e He. apply Hds. cbn [dirs_tbl]. apply in_or_app. left. exact He.
+    intros l. apply pruned_tbl_IH. apply Forall_forall. intros p _. apply pruned_flat_pt.
+  Qed.
+  (* wherever the oracle of the state answers "self: disabled", self_toggle finds the switch *)
+  Lemma selfs_ok_pt : forall p dir, incl (dirs_pt dir p) ds -> sw_ok p = true -> selfs_ok o dir (sport_of p).
+  Proof.
+    induction p as [nm arr d|nm enum ptr sw sub IHs|nm sw] using pt_ind2; intros dir Hds Hok; [exact I| |exact I].
+    cbn [sport_of selfs_ok]. intros x Hx. rewrite dirs_pt_sub in Hds.
+    cbn [sw_ok] in Hok. apply andb_true_iff in Hok. destruct Hok as [Hsw Hoksub].
+    apply andb_true_iff in Hsw. destruct Hsw as [_ Hself].
+    assert (Hin : In (dir ++ x, option_map (fun g => dir ++ g) ptr, option_map (sw_addr dir (sub_name nm enum) x) sw,
+                      option_map (fun v => (dir ++ x) ++ v) (self_sw sub)) ds).
+    { apply Hds. apply in_flat_map. exists x. split; [exact Hx | left; reflexivity]. }
+    assert (Hsubds : incl (dirs_tbl (dir ++ x) sub) ds).
+    { intros e He. apply Hds. apply in_flat_map. exists x. split; [exact Hx | right; exact He]. }
+    split.
+    - intros Hoff. destruct (oracle_dir _ _ _ _ Hin) as (_ & _ & Es). rewrite Es in Hoff.
+      destruct (self_sw sub) as [v|] eqn:Ev; [|discriminate Hoff].
+      destruct (self_toggle_ok sub v (dir ++ x) Ev Hself) as (j & d & _ & Et). rewrite Et. discriminate.
+    - apply selfs_all_forall. apply Forall_forall. intros q Hq. apply in_map_iff in Hq. destruct Hq as (p & <- & Hp).
+      rewrite Forall_forall in IHs. apply (IHs p Hp).
+      + intros e He. apply Hsubds. exact (dirs_tbl_in _ _ _ Hp e He).
+      + rewrite forallb_forall in Hoksub. exact (Hoksub p Hp).
+  Qed.
+
+  Lemma tbl_ok_table : forall l dir ptr sw,
+    In (dir, ptr, sw, option_map (fun v => dir ++ v) (self_sw l)) ds -> incl (dirs_tbl dir l) ds ->
+    self_ok l = true -> forallb sw_ok l = true -> tbl_ok o dir (map sport_of l).
+  Proof.
+    intros l dir ptr sw Hin Hds Hself Hok. split.
+    - intros Hoff. destruct (oracle_dir _ _ _ _ Hin) as (_ & _ & Es). rewrite Es in Hoff.
+      destruct (self_sw l) as [v|] eqn:Ev; [|discriminate Hoff].
+      destruct (self_toggle_ok l v dir Ev Hself) as (j & d & _ & Et). rewrite Et. discriminate.
+    - apply Forall_forall. intros q Hq. apply in_map_iff in Hq. destruct Hq as (p & <- & Hp).
+      apply selfs_ok_pt.
+      + intros e He. apply Hds. exact (dirs_tbl_in _ _ _ Hp e He).
+      + rewrite forallb_forall in Hok. exact (Hok p Hp).
   Qed.
 End Pruned.
 
-Lemma nometa_sport_of : forall p, nometa (sport_of p).
-Proof.
-  induction p as [nm arr d|nm enum ptr sw sub IHs] using pt_ind2; cbn [sport_of nometa]; split; try reflexivity; try exact I.
-  induction sub as [|q r IH]; [exact I|]. inversion IHs; subst. cbn [map]. split; [assumption | apply IH; assumption].
-Qed.
-
 (* C12_walk_live_reports: walk_ports with the runtime object of state [st] calls the
    walker with the element addresses of exactly the live ports of app_of_tree, in the
-   application's order *)
+   application's order.  A sub-tree whose inner switch ("name/tg") is off is not entered,
+   but the walker is applied to that switch: it is the one live port below; likewise a
+   table whose rSelf names a toggle that is off. *)
 Theorem walk_live_reports : forall t st,
-  names_ok (sports_of t) = true -> NoDup (map dir_addr (dirs_root t)) ->
+  names_ok (sports_of t) = true -> switches_ok t = true ->
+  NoDup (map dir_addr (dirs_root t)) -> NoDup (map p_path (app_of_tree t)) ->
   walk (Some (oracle_of (app_of_tree t) (dirs_root t) st)) (map render_port (sports_of t)) [] =
   WOk (flat_map (live_reports (app_of_tree t) st) (flat_root t)) [47].
 Proof.
-  intros t st Hn Hnd. destruct (names_ok_sound _ Hn) as (Hwf & _).
+  intros t st Hn Hsw Hnd Hpaths. destruct (names_ok_sound _ Hn) as (Hwf & _).
+  unfold switches_ok in Hsw. apply andb_true_iff in Hsw. destruct Hsw as [Hself Hsw].
   unfold walk. rewrite walk_port_empty_buf.
   change (Port [] None (Some (map render_port (sports_of t))))
     with (render_port (SPort [] [] None (Some (sports_of t)))).
-  rewrite (walk_pruned_wf (oracle_of (app_of_tree t) (dirs_root t) st) (fun _ => eq_refl) _ [] [47] [] [] None (sports_of t) eq_refl Hwf);
-    [| apply Forall_forall; intros q Hq; unfold sports_of in Hq; apply in_map_iff in Hq;
-       destruct Hq as (p & <- & _); apply nometa_sport_of | discriminate].
-  f_equal. unfold sports_of, flat_root.
-  apply (pruned_flat_tbl _ st _ Hnd); [apply incl_refl | reflexivity | reflexivity].
+  assert (Hroot : In ([47], @None str, @None str, option_map (fun v => [47] ++ v) (self_sw t)) (dirs_root t))
+    by (left; reflexivity).
+  assert (Hsub : incl (dirs_tbl [47] t) (dirs_root t)) by (intros e He; right; exact He).
+  rewrite (walk_pruned_wf (oracle_of (app_of_tree t) (dirs_root t) st) _ [] [47] [] [] None (sports_of t) eq_refl Hwf);
+    [| discriminate | exact (tbl_ok_table _ st _ Hnd t [47] None None Hroot Hsub Hself Hsw)].
+  f_equal. unfold sports_of. rewrite paths_app in Hpaths. unfold flat_root in Hpaths |- *.
+  apply (table_self (app_of_tree t) st (dirs_root t) Hnd t [] [47] [] [] None None Hroot Hself Hpaths eq_refl eq_refl).
+  intros Hs''. apply (pruned_flat_tbl _ st _ Hnd); try assumption. reflexivity.
 Qed.
 
 Lemma live_f_live : forall t st i f, nth_error (flat_root t) i = Some f ->
@@ -421,12 +784,13 @@ Proof. reflexivity. Qed.
    live ports of the application, in order - the former premise "C09" *)
 Theorem walk_stage : forall t st,
   let a := app_of_tree t in
-  names_ok (sports_of t) = true -> NoDup (map dir_addr (dirs_root t)) ->
+  names_ok (sports_of t) = true -> switches_ok t = true ->
+  NoDup (map dir_addr (dirs_root t)) -> NoDup (map p_path a) ->
   NoDup (app_addresses a) -> (forall i, (i < length a)%nat -> (0 < p_len (port_at a i))%nat) ->
   walk_tree t st = filter (live a st) (seq 0 (length a)).
 Proof.
-  intros t st a Hn Hnd Haddr Hlen. unfold a in *. clear a. unfold walk_tree.
-  rewrite (walk_live_reports t st Hn Hnd).
+  intros t st a Hn Hsw Hnd Hpaths Haddr Hlen. unfold a in *. clear a. unfold walk_tree.
+  rewrite (walk_live_reports t st Hn Hsw Hnd Hpaths).
   apply filter_ext_in. intros i Hi. apply in_seq in Hi. destruct Hi as [_ Hi]. cbn [Nat.add] in Hi.
   destruct (nth_error (flat_root t) i) as [f|] eqn:Ef.
   2:{ apply nth_error_None in Ef. unfold app_of_tree in Hi. rewrite map_length in Hi. lia. }
